@@ -724,4 +724,47 @@ theorem schedule_refines_spec (ls : List SLabel) (f : FSys) (out : List Seq)
   have hspec := (VaxisModel.Props.C08Spec.lifecycle_refines_spec als _ oa g1).1
   exact ⟨als, by rw [← hspec, g2, hpend, List.append_nil]⟩
 
+/-- a swap of two adjacent statements that commute, in the middle of a schedule -/
+theorem swap_in_schedule (T : Table) (pre post : List FLabel) (a b : FLabel) (f0 : FSys)
+    (h : ∀ f o, FSys.run T f0 pre = some (f, o) → step2 T f a b = step2 T f b a) :
+    FSys.run T f0 (pre ++ a :: b :: post) = FSys.run T f0 (pre ++ b :: a :: post) := by
+  rw [run_append, run_append]
+  cases hp : FSys.run T f0 pre with
+  | none => rfl
+  | some r =>
+    obtain ⟨f, o⟩ := r
+    simp only
+    have hab := h f o hp
+    have e1 : FSys.run T f (a :: b :: post) = FSys.run T f ([a, b] ++ post) := rfl
+    have e2 : FSys.run T f (b :: a :: post) = FSys.run T f ([b, a] ++ post) := rfl
+    rw [e1, e2, run_append, run_append]
+    simp only [step2] at hab
+    rw [hab]
+
+/-- **Moving a `Close()` one statement later changes nothing** — in any schedule, at any position,
+    unless the statement it is moved over is the `select` of the main goroutine: same final state,
+    same items (and the schedule is enabled iff the other is).  Repeating the move brings every
+    `Close()` in front of the next `select` (or to the end of the schedule, where it has no effect on
+    what was delivered): reduction 1 of `enumerate`, on whole schedules. -/
+theorem closeSig_moves_later (T : Table) (pre post : List FLabel) (l : FLabel) (f0 : FSys)
+    (hsel : ∀ f o, FSys.run T f0 pre = some (f, o) → ¬ (l = .main ∧ f.mpc = .atSelect)) :
+    FSys.run T f0 (pre ++ .closeSig :: l :: post) = FSys.run T f0 (pre ++ l :: .closeSig :: post) :=
+  swap_in_schedule T pre post .closeSig l f0 (fun f o hp => closeSig_commutes T f l (hsel f o hp))
+
+/-- **Moving a timer expiry one statement earlier changes nothing** — in any schedule, at any
+    position where the timer is already pending and the statement it is moved over neither stops nor
+    arms the timer (and is not the first statement of the callback the expiry starts).  Repeating the
+    move brings the expiry right behind the `anywhere` that armed the timer: reduction 2 of
+    `enumerate`, on whole schedules. -/
+theorem expire_moves_earlier (T : Table) (pre post : List FLabel) (l : FLabel) (f0 : FSys)
+    (hl : l ≠ .expire)
+    (h : ∀ f o, FSys.run T f0 pre = some (f, o) →
+      (∃ g, f.armed = some g) ∧
+      (l = .main → (∀ i, f.mpc ≠ .readDone i) ∧ (∀ v, f.mpc ≠ .fin .stop v) ∧ (∀ i, f.mpc ≠ .bumped i)) ∧
+      (∀ k, l = .cb k → k ≠ f.cbs.length)) :
+    FSys.run T f0 (pre ++ l :: .expire :: post) = FSys.run T f0 (pre ++ .expire :: l :: post) :=
+  swap_in_schedule T pre post l .expire f0 (fun f o hp => by
+    obtain ⟨⟨g, hg⟩, hm, hcb⟩ := h f o hp
+    exact (expire_commutes T f g l hg hl hm hcb).symm)
+
 end VaxisModel.Props.C08Sched
